@@ -108,6 +108,14 @@ M = {
    "            bincode::deserialize(&bytes)", "            bincode::deserialize_from(&bytes[..])", 'C05?'),
  'c05-corrupt-not-dropped': ('src/engine/incremental/storage.rs',
    "    result.ok()\n", "    Some(result.unwrap())\n", 'C05'),
+ 'c16-no-workdir-filter': ('src/engine/watcher.rs',
+   "                            && !work_dir::is_in_work_dir(&path)\n", "", 'C16'),
+ 'c16-no-tmp-filter': ('src/engine/watcher.rs',
+   "                        !is_tmp_editor_file(&path)\n                            && ", "                        ", 'C16'),
+ 'c16-ignore-extensions': ('src/engine/watcher.rs',
+   "                            && domain::matches_extensions(path.as_path().into(), &extensions)\n", "", 'C16'),
+ 'c16-unwrap-back': ('src/engine/watcher.rs',
+   "        Some(file_name) => file_name.to_string_lossy(),", "        Some(file_name) => file_name.to_str().unwrap().to_string(),", 'C16'),
 }
 
 def sh(cmd, **kw):
